@@ -8,7 +8,8 @@
 (*            "scolors","lm":{..as list of pairs},"costs":[..],"m":[..],    *)
 (*            "lab":[[..]],"ordered":0|1|-1,"events":[..],"cost":c}         *)
 (*     `again` is the document obtained from the re-serialised dictionary   *)
-(*  {"op":"cli","alg","policy","hassyn":bool,"given":{"onames","snames"},   *)
+(*  {"op":"cli","alg","policy","hassyn":bool,"given":{"onames","snames",    *)
+(*   "lm":[[leaf,species],..]},                                            *)
 (*   "exit":rc,"lines":[doc,..],"printed":c,"drawn":[bool,..]}              *)
 (*  {"op":"cli-pair","all":[key,..],"any":[key,..]}                         *)
 (***************************************************************************)
@@ -42,6 +43,7 @@ Clauses(e) ==
                                                  \/ ~NamesOK(e.given.snames, e.lines[i].snames, "S")
                     THEN {"ClauseNodeNames"} ELSE {})
               \cup (IF \E i \in DOMAIN e.lines : e.lines[i].cost # e.printed THEN {"ClausePrintedCost"} ELSE {})
+              \cup (IF \E i \in DOMAIN e.lines : e.lines[i].lm # e.given.lm THEN {"ClauseLeafAssignment"} ELSE {})
               \cup (IF \E i \in DOMAIN e.drawn : ~e.drawn[i] THEN {"ClauseDrawAccepts"} ELSE {})
               \cup (IF e.policy = "any" /\ Len(e.lines) > 1 THEN {"ClauseAnyOne"} ELSE {})
     [] e.op = "cli-pair" ->
